@@ -1,6 +1,6 @@
 (* C14 — property theorems only.  Each is closed by [exact <lemma>] and followed by
    Print Assumptions; the statements are pinned here so they cannot be quietly weakened. *)
-From FB Require Import C14.Model C14.Theory C14.Theory2 C14.Theory3 C14.Theory4 C14.Theory5.
+From FB Require Import C14.Model C14.Theory C14.Theory2 C14.Theory3 C14.Theory4 C14.Theory5 C14.Theory6.
 
 (* ---- 1. jar names = mapping names ---- *)
 
@@ -60,6 +60,22 @@ Theorem C14_only_listed_classes : forall J T, incl (this_nests J T) T.
 Proof. exact this_nests_incl. Qed.
 Print Assumptions C14_only_listed_classes.
 
+(* exactly: a class that is not listed, or whose entry the filter dropped, keeps its name; every
+   other class is renamed to Enclosing$Inner through the kept entries *)
+Theorem C14_jar_name_unchanged : forall J T c,
+  NoDup (keys T) -> acyclic T -> ~ In c (keys (this_nests J T)) -> jar_name J T c = Ok c.
+Proof. exact jar_name_unchanged. Qed.
+Print Assumptions C14_jar_name_unchanged.
+
+Theorem C14_jar_name_renamed : forall J T c,
+  NoDup (keys T) -> acyclic T -> exists r, jar_name J T c = Ok r /\ trans (this_nests J T) c r.
+Proof. exact jar_name_renamed. Qed.
+Print Assumptions C14_jar_name_renamed.
+
+Theorem C14_mapping_name_unlisted : forall T c, acyclic T -> ~ In c (keys T) -> mapping_name T c = Ok c.
+Proof. exact mapping_name_unlisted. Qed.
+Print Assumptions C14_mapping_name_unlisted.
+
 (* missing enclosing classes are created *)
 Theorem C14_enclosing_class_exists : forall J T n,
   In n (this_nests J T) -> In (n_encl n) (jar_classes J ++ new_classes J T).
@@ -117,6 +133,16 @@ Theorem C14_undo_apply : forall T M M1 m,
 Proof. exact undo_apply. Qed.
 Print Assumptions C14_undo_apply.
 
+(* the same without assuming that apply succeeds: on well-formed two-namespace mappings whose
+   descriptors are well formed it does (given that the table could be translated) *)
+Theorem C14_apply_then_undo : forall T M T' m m',
+  table_ok T -> wf M = true -> length (ms_ns M) = 2%nat -> descs_ok M ->
+  map_nests T M = Ok T' -> translation T = Ok m -> translation T' = Ok m' ->
+  inj_on (map_class m) (keys T ++ source_classes M) ->
+  exists M1 M2, apply_nests M T = OOk M1 /\ undo_nests M1 T = OOk M2 /\ src_view M2 = src_view M.
+Proof. exact apply_then_undo. Qed.
+Print Assumptions C14_apply_then_undo.
+
 (* ---- 5. translating a table through mappings ---- *)
 
 Theorem C14_map_nests_total : forall T M B T',
@@ -126,6 +152,12 @@ Theorem C14_map_nests_total : forall T M B T',
   Forall2 (image_ok B) T T'.
 Proof. exact map_nests_total. Qed.
 Print Assumptions C14_map_nests_total.
+
+(* the class names of the images are the target names of the mapping set *)
+Theorem C14_map_class_is_mapping : forall M B c,
+  mk_bremap M = Ok B -> b_map_class B c = map_class (class_pairs (ms_classes M) 0 1) c.
+Proof. exact b_map_class_is_mapping. Qed.
+Print Assumptions C14_map_class_is_mapping.
 
 Theorem C14_map_nests_succeeds : forall T M B,
   mk_bremap M = Ok B ->
